@@ -59,8 +59,37 @@ class Script:
         return float(10 * self.n + 1)
 
 
+def dev_start(m, frame, argrefs, vals):
+    """_ecb_start initialises the display record; marker values make 'current colour' defaults observable."""
+    rec = argrefs[0]
+    if isinstance(rec, dict):
+        marks = {"hfore": 7, "hbck": 3, "fore": 5, "bck": 2, "hpth": 9, "hscl": 1}
+        for k, cell in rec.items():
+            for j in range(len(cell.data)):
+                cell.data[j] = marks.get(k, 0)
+
+
+def dev_ecb_hex(m, frame, argrefs, vals):
+    """HEX$ primitive (used where only the call order matters): Color BASIC's image."""
+    v = vals[0]
+    out = argrefs[1]
+    if not isinstance(out, I.Ref) or out.cell.typ[0] != "STRING":
+        raise I.ModelAbort("param", "ecb_hex: result parameter is not a string variable")
+    if v is None or v is I.UNSPEC or isinstance(v, (str, bool)):
+        out.set(I.UNSPEC)
+        return
+    import math
+    n = math.floor(v)
+    out.set("%X" % n if 0 <= n <= 65535 else I.UNSPEC)
+
+
+PRIMITIVE_HEX = False
+
+
 def make_devices(script=None):
-    d = {"ecb_str": dev_ecb_str}
+    d = {"ecb_str": dev_ecb_str, "_ecb_start": dev_start}
+    if PRIMITIVE_HEX:
+        d["ecb_hex"] = dev_ecb_hex
     if script is not None:
         def mk(name, n_in):
             def h(m, frame, argrefs, vals):
